@@ -44,7 +44,7 @@ CHECK_DEADLOCK FALSE
 """
 
 
-def build_file(path, residues, vel, title, box, crlf=False):
+def build_file(path, residues, vel, title, box, crlf=False, far=False):
     """residues: list of (resid, resname, [atom names]); every atom gets a unique number/coordinates.
     -> atom level records (the independent truth)."""
     recs = []
@@ -53,6 +53,10 @@ def build_file(path, residues, vel, title, box, crlf=False):
         for an in names:
             p = (round(0.001 * pos + 0.5, 3), round(0.002 * (pos % 977) - 0.7, 3), round(-0.003 * (pos % 331), 3))
             v = (round(0.0001 * pos, 4), round(-0.0002 * (pos % 50), 4), 0.5) if vel else None
+            if far:
+                # values that fill their fixed-width column and touch the previous field (legal: the columns are by position)
+                p = (round(p[0] + 1000.0, 3), round(p[1] - 150.0, 3), round(p[2] - 200.0, 3))
+                v = (round(v[0] - 12.0, 4), round(v[1] - 11.0, 4), -10.5) if vel else None
             if vel and pos % 7 == 3:
                 v = (0.0, 0.0, 0.0)          # an atom at rest still has a velocity record
             recs.append((rid, rn, an, pos + 1, p) + ((v,) if vel else ()))
@@ -276,7 +280,7 @@ def _work(args):
                 title = rng.choice(['Random system', 'x', 'Title with, punctuation t= 1.0', '  padded title \t', 'trailing blanks   '])
                 box = rng.choice([(3.0, 4.0, 5.0), (7.5, 7.5, 7.5, 0.0, 0.0, 1.25, 0.0, -2.5, 0.5)])
                 ops = random_ops(rng, len(residues), rng.randint(1, oplen))
-            recs = build_file(path, residues, vel, title, box, crlf=(tid % 5 == 4))      # every fifth file has DOS line ends
+            recs = build_file(path, residues, vel, title, box, crlf=(tid % 5 == 4), far=(tid % 4 == 1))      # every fifth file has DOS line ends
             try:
                 ev = common.guarded(record, 180, path, recs, ops, title, box)
             except Exception as exc:
